@@ -29,7 +29,7 @@ m = {
     "setup_cmd": "./setup.sh",
     "hooks": {
         "guard": "verif",
-        "enable": "go build -tags verif -overlay <generated overlay.json> (tools/mkbuild.py): in-package harness files /verif/harness/<pkg>/zz_verif_*.go are ADDED to repo packages at build time and types/time/time.go gets a settable clock appended (generated from the current file); nothing is committed in /repo",
+        "enable": "go build -tags verif -overlay <generated overlay.json> (tools/mkbuild.py): in-package harness files /verif/harness/<pkg>/zz_verif_*.go are ADDED to repo packages at build time and types/time/time.go gets a settable clock appended and types/signable.go an opt-in memo of VerifySignature (both generated from the current files at build time); nothing is committed in /repo",
         "baseline_off_cmd": "cd /repo && go test -mod=mod -json -vet=off -count=1 -timeout 25m ./...",
         "source_commits": [],
         "add_only": True,
